@@ -58,3 +58,9 @@ def pair_first(ex, st, p):
 def unI_(ex, st, v):
     from pyvc.core import unI
     return S_int(unI(box(v, st)))
+
+
+@spec_function("unS_")
+def unS__(ex, st, v):
+    from pyvc.core import unS
+    return Sym("seq", unS(box(v, st)), Spec("seq", Spec("val")))
